@@ -18,7 +18,7 @@
      src/iface/route.rs lookup, src/iface/neighbor.rs lookup (entries unexpired)
    Packets are abstract (already parsed, well-formed): the byte level is C06/C07/C08.
    Rust panics (assert!/unreachable!) are [Panic] of the outcome monad. *)
-From SV Require Import Lib.Base Gen.Consts Model.Addr.
+From SV Require Import Lib.Base Gen.Consts Gen.WireFields Model.Addr.
 
 (* ------------------------------------------------------------------ state *)
 
@@ -573,7 +573,8 @@ Definition ing_process_ip_any (ifc : iface) (socks : list sock) (p : packet) : o
   | _, _ => Ok res_none
   end.
 
-(* InterfaceInner::process_ethernet (fixed: unicast IP in a broadcast/multicast frame dropped) *)
+(* InterfaceInner::process_ethernet (fixed: a datagram in a broadcast/multicast frame is dropped
+   unless its IP destination is broadcast or multicast) *)
 Definition ing_process_ethernet (ifc : iface) (socks : list sock) (p : packet) : outcome ing_result :=
   match p_ll_dst p with
   | HwEth d =>
@@ -582,9 +583,10 @@ Definition ing_process_ethernet (ifc : iface) (socks : list sock) (p : packet) :
       else
         let link_unicast := eth_is_unicast d in
         match p_dst p with
-        | V4 a => if negb link_unicast && ing_is_unicast_v4 ifc a then Ok res_none
+        | V4 a => if negb link_unicast && negb (v4_is_multicast a) && negb (ing_is_broadcast_v4 ifc a)
+                  then Ok res_none
                   else ing_process_ip_any ifc socks p
-        | V6 a => if negb link_unicast && v6_x_is_unicast a then Ok res_none
+        | V6 a => if negb link_unicast && negb (v6_is_multicast a) then Ok res_none
                   else ing_process_ip_any ifc socks p
         end
   | _ => Ok res_none
@@ -598,7 +600,7 @@ Definition opt_z_eqb (a b : option Z) : bool :=
   end.
 
 (* InterfaceInner::process_ieee802154 + the end of process_sixlowpan (data frames only;
-   fixed: unicast IPv6 in a link-layer broadcast frame dropped) *)
+   fixed: non-multicast IPv6 in a link-layer broadcast frame dropped) *)
 Definition ing_process_ieee802154 (ifc : iface) (socks : list sock) (p : packet) : outcome ing_result :=
   if (match if_pan ifc with Some _ => true | None => false end)
      && negb (opt_z_eqb (p_ll_pan p) (if_pan ifc))
@@ -606,8 +608,11 @@ Definition ing_process_ieee802154 (ifc : iface) (socks : list sock) (p : packet)
   then Ok res_none
   else
     match p_dst p with
-    | V6 a => if hw154_is_broadcast (p_ll_dst p) && v6_x_is_unicast a then Ok res_none
-              else ing_process_ip_any ifc socks p
+    | V6 a =>
+        (* sixlowpan_to_ipv6 decompresses TCP, UDP and ICMPv6 only (after any NHC extension header) *)
+        if negb (match p_upper p with UTcp _ _ _ _ _ | UUdp _ _ _ | UIcmp _ => true | _ => false end) then Ok res_none
+        else if hw154_is_broadcast (p_ll_dst p) && negb (v6_is_multicast a) then Ok res_none
+        else ing_process_ip_any ifc socks p
     | V4 _ => Ok res_none      (* 6LoWPAN carries IPv6 only *)
     end.
 
@@ -624,6 +629,7 @@ Definition ing_changed (socks : list sock) (p : packet) (deliv : list nat) : lis
   filter (fun i => match nth i socks STcpClosed, p_upper p with
                    | (STcpListen _ _ | STcpConn _ _ _ _) as s, UTcp _ _ ctl ack _ => fst (ing_tcp_process s ctl ack)
                    | (STcpListen _ _ | STcpConn _ _ _ _ | STcpClosed), _ => false
+                   | SDns _, _ => false       (* a DNS socket has no receive queue to observe *)
                    | _, _ => true
                    end) deliv.
 
@@ -776,10 +782,24 @@ Definition ing_udp_send (ifc : iface) (s : sock) (dst : ipaddr) (len : Z) : outc
   | None => Ok []
   end.
 
-(* tcp::Socket::connect with an unspecified local address: the SYN's source *)
+(* tcp::Socket::connect with an unspecified local address picks the source with
+   get_source_address; tcp::Socket::dispatch resets the socket instead of sending when the
+   interface does not have that address (has_ip_addr).  Length of the SYN not modelled (0). *)
 Definition ing_tcp_connect_packet (ifc : iface) (dst : ipaddr) : outcome (option reply) :=
   do src <- ing_get_source_address ifc dst;
   match src with
-  | Some sa => Ok (Some (mkReply KSyn sa dst 0))
+  | Some sa => if ing_has_ip_addr ifc sa then Ok (Some (mkReply KSyn sa dst 0)) else Ok None
   | None => Ok None
   end.
+
+Definition ing_tcp_connect (ifc : iface) (dst : ipaddr) : outcome (list emitted) :=
+  do r <- ing_tcp_connect_packet ifc dst;
+  match r with
+  | Some rr => ing_dispatch_ip ifc rr
+  | None => Ok []
+  end.
+
+(* DeviceCapabilities::ip_mtu and the size of the fragmentation buffer (config) *)
+Definition ing_ip_mtu (m : medium) (dev_mtu : Z) : Z :=
+  match m with MEth => dev_mtu - weth_f_PAYLOAD | _ => dev_mtu end.
+Definition ing_frag_buffer_size : Z := cfg_FRAGMENTATION_BUFFER_SIZE.
